@@ -11,9 +11,11 @@ class C11(Prop):
     id = "C11"
     title = "Subscriber and PLMN identities are encoded per TS 24.501 / TS 38.413"
     lean_module = "Stgutg.Props.C11"
-    extra_modules = ["Stgutg.Proofs.GenTieSuci", "Stgutg.Proofs.GenTieConvert", "Stgutg.Gen.PureSelftest"]
-    gen = ["pure-suci", "pure-convert", "pure-selftest"]
-    theorems = [
+    extra_modules = ["Stgutg.Props.Glue.stgutg_EncodeSuci", "Stgutg.Props.Glue.stgutg_hexCharToByte", "Stgutg.Props.Glue.stgutg_ManageNGSetup", "Stgutg.Props.Glue.stgutg_RegisterUE", "Stgutg.Props.Glue.stgutg_DeregisterUE", "Stgutg.Props.Glue.stgutg_CreateUE", "Stgutg.Props.Glue.tglib_GetNGSetupRequest", "Stgutg.Proofs.GenTieSuci", "Stgutg.Proofs.GenTieConvert", "Stgutg.Gen.PureSelftest"]
+    gen = ["pure-suci", "pure-convert", "pure-selftest", "procs"]
+    theorems = ["Stgutg.Props.GluePinned." + t for t in [
+        # the glue functions this property depends on are still the text the models were written from (gen procs)
+        "stgutg_EncodeSuci", "stgutg_hexCharToByte", "stgutg_ManageNGSetup", "stgutg_RegisterUE", "stgutg_DeregisterUE", "stgutg_CreateUE", "tglib_GetNGSetupRequest"]] + [
         # tie by translation: the definitions regenerated from utils.go / PlmnId.go ARE the hand models
         "Stgutg.Proofs.GenTie.Suci.hexCharToByte_eq", "Stgutg.Proofs.GenTie.Suci.EncodeSuci_eq",
         "Stgutg.Proofs.GenTie.Suci.EncodeSuci_buffer", "Stgutg.Proofs.GenTie.Convert.PlmnIDToNas_eq",
